@@ -43,7 +43,15 @@ pub fn corpus() -> &'static Corpus {
 pub fn pick_world(rng: &mut Rng, base: u64, idx: u64, wgen_pct: u32, profile: wgen::Profile) -> World {
     if wgen::available() && rng.coin(wgen_pct) {
         // a share of every generated workload are small dense propositional programs (cycles whose head fails ...)
-        let p = if profile != wgen::Profile::Wild && rng.coin(30) { wgen::Profile::Cyc } else { profile };
+        // a share of every generated workload: Cyc (30 %), and Enum (goals with unknowns and several answers, planted
+        // Lattice / Chain / Grow templates) for the default profiles
+        let p = if profile != wgen::Profile::Wild && rng.coin(30) {
+            wgen::Profile::Cyc
+        } else if (profile == wgen::Profile::Any || profile == wgen::Profile::Fragment) && rng.coin(25) {
+            wgen::Profile::Enum
+        } else {
+            profile
+        };
         return wgen::gen_world(rng, p);
     }
     let c = corpus();
